@@ -1142,6 +1142,11 @@ class Interp:
                     obj = self.eval(e.args[1], st)
                     return ('$super', c.name, obj)
                 return ('$super', meta.get('cls'), st.frame.get('self'))
+            if e.func.id == 'use_lemma' and len(e.args) == 1:
+                # ghost statement of sidecar composition code: assume an instance of a proved lemma here
+                from .specs import use_lemmas
+                use_lemmas(self, st, [ast.unparse(e.args[0])], {})
+                return None
             if e.func.id in ('forall', 'exists') and st.frame['$meta'].get('module') == '$spec':
                 return ops.quantifier(self, st, e)
         f = self.eval(e.func, st)
